@@ -205,6 +205,14 @@ func (P) Gen(r *core.Rand, tier string, emit func([]string)) {
 				a.NilTrailer = false
 			}
 		}
+		if mode == "p" && r.Chance(1, 10) {
+			// struct fields that disagree with same-named keys of the header map: the snapshot, like
+			// the wire, carries the fields
+			if label, m := msggen.Disagree(r, a); label != "" {
+				mode = m
+				core.Count("disagree:" + label)
+			}
+		}
 		skip, cts := "0", "-"
 		switch r.Intn(10) {
 		case 0, 1:
